@@ -2,6 +2,8 @@ import MythVerif.Proofs.WsQueueTsoStepO1
 import MythVerif.Proofs.WsQueueTsoStepO2
 import MythVerif.Proofs.WsQueueTsoStepO3
 import MythVerif.Proofs.WsQueueTsoStepO4
+import MythVerif.Proofs.WsQueueTsoStepU1
+import MythVerif.Proofs.WsQueueTsoStepU2
 import MythVerif.Proofs.WsQueueTsoStepT1
 import MythVerif.Proofs.WsQueueTsoStepT2
 import MythVerif.Proofs.WsQueueTsoStepT3
@@ -9,6 +11,7 @@ import MythVerif.Proofs.WsQueueTsoStepF1
 import MythVerif.Proofs.WsQueueTsoStepF2
 import MythVerif.Proofs.WsQueueTsoStepF3
 import MythVerif.Proofs.WsQueueTsoStepF4
+import MythVerif.Proofs.WsQueueTsoStepF5
 /-! The TSO invariant is inductive; it holds in every reachable state of the store-buffer machine
     with the fences of the source. -/
 namespace MythVerif.WsqTso
@@ -36,6 +39,13 @@ theorem stepO_inv (s s' : St) : Inv s → stepO s = some s' → Inv s' := by
   | po7 => exact o_po7 s s' h hpc hs
   | po8 => exact o_po8 s s' h hpc hs
   | po9 => exact o_po9 s s' h hpc hs
+  | stuckL => simp [stepO, hpc] at hs
+  | ptl e => exact o_ptl s s' e h hpc hs
+  | pt1 e => exact o_pt1 s s' e h hpc hs
+  | pt6 e => exact o_pt6 s s' e h hpc hs
+  | pt7 e b => exact o_pt7 s s' e b h hpc hs
+  | pt8 e b => exact o_pt8 s s' e b h hpc hs
+  | pt9 => exact o_pt9 s s' h hpc hs
 
 theorem stepT_inv (s s' : St) (p : Pid) : Inv s → stepT s p = some s' → Inv s' := by
   intro h hs
@@ -53,7 +63,7 @@ theorem stepT_inv (s s' : St) (p : Pid) : Inv s → stepT s p = some s' → Inv 
   | tk6 => exact t_tk6 s s' p h hpc hs
 
 set_option maxHeartbeats 1000000 in
-theorem callO_inv (s s' : St) (pc : OPc) (hpc : (∃ e, pc = .pu0 e) ∨ pc = .pq) :
+theorem callO_inv (s s' : St) (pc : OPc) (hpc : (∃ e, pc = .pu0 e) ∨ pc = .pq ∨ (∃ e, pc = .ptl e)) :
     Inv s → (match s.opc with | .idle => some { s with opc := pc } | _ => none) = some s' → Inv s' := by
   intro h hs
   split at hs
@@ -61,7 +71,7 @@ theorem callO_inv (s s' : St) (pc : OPc) (hpc : (∃ e, pc = .pu0 e) ∨ pc = .p
     simp at hs; subst hs
     cases h
     simp only [heq, ownerLocked, carry, resetting, ownerFlight] at *
-    rcases hpc with ⟨e, rfl⟩ | rfl
+    rcases hpc with ⟨e, rfl⟩ | rfl | ⟨e, rfl⟩
     all_goals tso_finish
   · simp at hs
 
@@ -88,13 +98,15 @@ theorem flushO_inv (s s' : St) : Inv s → step s .flushO = some s' → Inv s' :
     | base v => exact f_O_base s s' v rest h hb hs.symm
     | ptr i x => exact f_O_ptr s s' i x rest h hb hs.symm
     | unlock => exact f_O_unlock s s' rest h hb hs.symm
+    | baseI v e => exact f_O_baseI s s' v e rest h hb hs.symm
   · simp at hs
 
 theorem step_inv (s : St) (l : Lbl) (s' : St) : Inv s → step s l = some s' → Inv s' := by
   intro h hs
   cases l with
   | oPush e => exact callO_inv s s' _ (Or.inl ⟨e, rfl⟩) h hs
-  | oPop => exact callO_inv s s' _ (Or.inr rfl) h hs
+  | oPop => exact callO_inv s s' _ (Or.inr (Or.inl rfl)) h hs
+  | oPut e => exact callO_inv s s' _ (Or.inr (Or.inr ⟨e, rfl⟩)) h hs
   | o => exact stepO_inv s s' h hs
   | flushO => exact flushO_inv s s' h hs
   | tTake p => exact callT_inv s s' p h hs
